@@ -86,7 +86,6 @@ package check
 //@ func (*Engine).checkIsAllowed
 //@   decreases[C15] restDepth + 1, 1, 0
 //@   callsite (*Engine).checkSubjectSetRewrite requires[C01] rewrite-of-the-requested-relation: $arg2 == r && $arg3 == relation.SubjectSetRewrite
-//@   callsite (*Engine).checkSubjectSetRewrite requires[C01] and-operands-get-their-own-visited-sets: relation.SubjectSetRewrite.Operation == ast.OperatorAnd ==> vset(ctx) == 0
 //@   callsite (*Engine).checkExpandSubject requires[C01] expansion-only-where-the-mode-allows-it: !strictMode || relation == nil || hassetexpand(relation)
 //@   callsite (*Engine).checkDirect requires[C01] direct-check-only-where-the-mode-allows-it: (!strictMode || !hasRewrite) && !skipDirect
 //@   ensures[C01] expansion-implies-mode-rule: (restDepth > 0 && err == nil && canHaveSubjectSets) ==> (!strictMode || relation == nil || hassetexpand(relation))
@@ -189,6 +188,10 @@ package check
 //@   callsite (*Engine).checkComputedSubjectSet requires[C01] child-on-the-same-tuple: $arg2 == tuple && $arg3 == c
 //@   callsite (*Engine).checkSubjectSetRewrite requires[C01] child-on-the-same-tuple: $arg2 == tuple && $arg3 == c
 //@   callsite (*Engine).checkInverted requires[C01] child-on-the-same-tuple: $arg2 == tuple && $arg3 == c
+//@   callsite (*Engine).checkComputedSubjectSet requires[C01] and-operands-get-their-own-visited-sets: rewrite.Operation == ast.OperatorAnd ==> (vset(ctx) == 0 || vset($arg1) != vset(ctx))
+//@   callsite (*Engine).checkSubjectSetRewrite requires[C01] and-operands-get-their-own-visited-sets: rewrite.Operation == ast.OperatorAnd ==> (vset(ctx) == 0 || vset($arg1) != vset(ctx))
+//@   callsite (*Engine).checkInverted requires[C01] and-operands-get-their-own-visited-sets: rewrite.Operation == ast.OperatorAnd ==> (vset(ctx) == 0 || vset($arg1) != vset(ctx))
+//@   callsite withOwnVisitedSet requires[C01] and-operands-get-their-own-visited-sets: rewrite.Operation == ast.OperatorAnd
 //@   props C02 C03 C15
 //@   modifies nothing
 //@   requires wfe(e) && tuple != nil && wfrw(rewrite) && ctx != nil
@@ -226,12 +229,27 @@ package check
 //@   requires forall i in 0..len(arg1) :: arg1[i] != nil
 //@   ensures result.Err != nil ==> result.Membership != checkgroup.IsMember
 
+//@ func withOwnVisitedSet
+//@   props C01 C03 C15
+//@   modifies nothing
+//@   requires check != nil
+//@   ensures result != nil
+
+//@ func withOwnVisitedSet$1
+//@   props C01 C03 C15
+//@   like functype::checkgroup.CheckFunc
+//@   requires check != nil
+//@   callsite functype::checkgroup.CheckFunc requires[C01] runs-on-its-own-visited-set: vset(ctx) == 0 || vset($arg1) != vset(ctx)
+
 //@ func (*Engine).checkInverted
 //@   decreases[C15] restDepth + 1, 0, astsize(inverted)
 //@   callsite (*Engine).checkTupleToSubjectSet requires[C01] child-on-the-same-tuple: $arg1 == tuple && istype(inverted.Child, *ast.TupleToSubjectSet) && $arg2 == as(inverted.Child, *ast.TupleToSubjectSet)
 //@   callsite (*Engine).checkComputedSubjectSet requires[C01] child-on-the-same-tuple: $arg2 == tuple && istype(inverted.Child, *ast.ComputedSubjectSet) && $arg3 == as(inverted.Child, *ast.ComputedSubjectSet)
 //@   callsite (*Engine).checkSubjectSetRewrite requires[C01] child-on-the-same-tuple: $arg2 == tuple && istype(inverted.Child, *ast.SubjectSetRewrite) && $arg3 == as(inverted.Child, *ast.SubjectSetRewrite)
 //@   callsite (*Engine).checkInverted requires[C01] child-on-the-same-tuple: $arg2 == tuple && istype(inverted.Child, *ast.InvertResult) && $arg3 == as(inverted.Child, *ast.InvertResult)
+//@   callsite (*Engine).checkComputedSubjectSet requires[C01] negated-operand-gets-its-own-visited-set: vset(old(ctx)) == 0 || vset($arg1) != vset(old(ctx))
+//@   callsite (*Engine).checkSubjectSetRewrite requires[C01] negated-operand-gets-its-own-visited-set: vset(old(ctx)) == 0 || vset($arg1) != vset(old(ctx))
+//@   callsite (*Engine).checkInverted requires[C01] negated-operand-gets-its-own-visited-set: vset(old(ctx)) == 0 || vset($arg1) != vset(old(ctx))
 //@   props C02 C03 C15
 //@   modifies nothing
 //@   requires wfe(e) && tuple != nil && wfinv(inverted) && ctx != nil
